@@ -5,8 +5,8 @@ import (
 	"unicode"
 
 	ot "github.com/go-text/typesetting/font/opentype"
+	"github.com/go-text/typesetting/font/opentype/tables"
 	"github.com/go-text/typesetting/harfbuzz"
-	"github.com/go-text/typesetting/language"
 	ucd "github.com/go-text/typesetting/unicodedata"
 
 	"verifharness/internal/hbref"
@@ -57,9 +57,11 @@ const (
 	// and skips fallback mark positioning / extents-based vertical origins.
 	ClsBitmapOnly = "skew(c) capability: font without outline tables (bitmap only), extents consulted (mark in text or vertical direction)"
 	// (c8) the per-character USE categories are regenerated upstream for every
-	// release; for a mark that belongs to a script other than the run's script
-	// 6.0.0 and the port's table version cut (broken) clusters differently.
-	ClsUSEForeignMark = "skew(c) capability: USE-shaper run containing a combining mark of a different script (USE category data regenerated after 6.0.0)"
+	// release. Observed list of code points whose category differs between
+	// 6.0.0 and the port's table: U+07FD NKO DANTAYALAN (port: not in the table
+	// = O; 6.0.0 inserts a dotted circle before it like for a vowel modifier),
+	// U+0FC6 TIBETAN SYMBOL PADMA GDAN (6.0.0 ends the cluster after it).
+	ClsUSEData = "skew(c) capability: USE-shaper run containing a code point whose USE category changed after 6.0.0 (U+07FD, U+0FC6)"
 	// tolerance, not a skew class proper: values interpolated from gvar / HVAR
 	// / MVAR at non-default coordinates are compared with a tolerance of one
 	// font unit (DESIGN C10); a difference within the tolerance is counted
@@ -70,15 +72,61 @@ const (
 	// class 0 (skipping it when ValueFormat2 != 0 and applying the class-0
 	// column). Witness: aots gpos2_2_font1, glyphs [18,18,19], feature "test".
 	ClsPairPos2 = "skew(c) capability: font has a class-based PairPos subtable where a class-0 second glyph matters (early exit added upstream after 6.0.0)"
-	// (c10) Myanmar run with two consecutive U+1039 (virama): reordering of the
-	// ill-formed cluster differs (6.0.0 [kinzi, base, medial], port [kinzi,
-	// medial, base]); attribution to the upstream machine revision is by
-	// plausibility only, no upstream source is available offline.
-	ClsMyanmarDoubleVirama = "skew(c) capability: Myanmar run with consecutive viramas (ill-formed cluster reordered differently)"
+	// (c10) MarkBasePos base search: upstream issue #4124 (cited in the port's
+	// applyGPOSMarkToBase, fixed after 6.0.0) changed which glyph of a
+	// MultipleSubst sequence a following mark attaches to. Witness: Newa
+	// U+11410 U+11440 U+11442 (O-sign split in two glyphs, virama after it):
+	// 6.0.0 leaves the virama unattached, the port attaches it to the base.
+	// Predicate (font + glyph sequence, not "they differ"): a cluster of the
+	// output has more glyphs than characters and a GDEF mark glyph follows two
+	// or more non-mark glyphs of that cluster.
+	ClsMarkAfterMultiple = "skew(c) capability: mark after a MultipleSubst sequence (MarkBasePos base search changed upstream after 6.0.0, issue #4124)"
+	// (c11) UNATTRIBUTED (which side is right could not be established offline):
+	// GPOS attachment lookups (cursive / mark-to-base / -ligature / -mark,
+	// contextual positioning) reached through a feature that the user gives a
+	// different value on a sub-range than elsewhere (a range with value != 1 on
+	// a shaper-enabled feature, or the same tag listed twice with different
+	// scope and value), and shaper-internal per-syllable form features forced
+	// by the user in a complex-shaper run. Witnesses: Hebrew U+05E9 U+05BC
+	// U+05C1 U+05B8 cluster level 2 mark[2:3]=0 (6.0.0: all marks at offset 0,
+	// port: dagesh @209,13 qamats @127,0); aots gpos4_lookupflag_f1 with
+	// test=1,test[2:3]=0; Gurmukhi U+0A48 U+0A41 blwm=0,blwm[1:3]=1; Selawik
+	// mkmk[1:2]=2,mkmk=1; Devanagari U+091F U+091F U+200C U+094D half=1 (no
+	// feature: both attach the virama @4,0; half=1: 6.0.0 @0,0, port @-872,0).
+	// Ranged kern / liga (no attachment) agree on both sides. Roughly one
+	// disagreement per 300k cases. For a tag listed twice with different scope
+	// (any tag: witness Latin "uu\u0301\u0361\u034F\u0301i" ccmp[1:3]=0,ccmp=1)
+	// 6.0.0 merges the entries into a global one that shares the global mask bit
+	// and then clears that bit on the range, which switches every global feature
+	// off there; the port follows the documented rule "the feature with the
+	// higher index takes precedence".
+	ClsFeatureMerge = "unattributed: GPOS attachment feature with a user value that differs on a sub-range, or user-forced shaper-internal form feature"
+	// (c12) mark-initial (broken) cluster in a USE-shaper run: the per-character
+	// USE categories and the broken-cluster / dotted-circle handling are
+	// regenerated / revised upstream between releases (DESIGN: dotted-circle
+	// placement in USE-family scripts). Witnesses: Tibetan U+0FC6 U+0F3F
+	// (6.0.0 keeps the order and inserts two dotted circles, the port reorders
+	// the pre-base sign), Mongolian U+18A9 U+07FD.
+	ClsUSEMarkInitial = "skew(c) capability: USE-shaper run with a mark-initial (broken) cluster (USE data / dotted-circle handling revised after 6.0.0)"
 	ClsVarRounding = "tolerance: interpolated values under variation coordinates differ by at most 1 font unit"
 	ClsGoPanic     = "go side panicked (C01)"
 	ClsCFail        = "reference failed: hb_shape_full returned false"
 )
+
+// features the shapers enable on their own (hb-ot-shape.cc common and
+// horizontal features, fraction features, and the complex shapers' lists)
+var shaperFeatures = map[string]bool{"abvm": true, "blwm": true, "ccmp": true, "locl": true, "mark": true, "mkmk": true, "rlig": true,
+	"calt": true, "clig": true, "curs": true, "dist": true, "kern": true, "liga": true, "rclt": true, "rvrn": true, "frac": true, "numr": true,
+	"dnom": true, "rand": true, "vert": true, "ltra": true, "ltrm": true, "rtla": true, "rtlm": true, "trak": true, "Harf": true, "HARF": true,
+	"Buzz": true, "BUZZ": true,
+	"isol": true, "fina": true, "fin2": true, "fin3": true, "medi": true, "med2": true, "init": true, "mset": true, "stch": true,
+	"ljmo": true, "vjmo": true, "tjmo": true,
+	"abvs": true, "blws": true, "haln": true, "pres": true, "psts": true, "vatu": true, "cjct": true, "rkrf": true, "akhn": true, "nukt": true,
+	"rphf": true, "pref": true, "blwf": true, "abvf": true, "half": true, "pstf": true, "cfar": true}
+
+var internalFormFeatures = map[string]bool{"half": true, "pref": true, "blwf": true, "pstf": true, "rphf": true, "nukt": true, "akhn": true,
+	"rkrf": true, "vatu": true, "cjct": true, "abvf": true, "cfar": true, "isol": true, "fina": true, "fin2": true, "fin3": true, "medi": true,
+	"med2": true, "init": true, "ljmo": true, "vjmo": true, "tjmo": true}
 
 // stdAssigned reports whether r is an assigned, non-noncharacter code point
 // according to the Go standard library's Unicode tables (15.0.0, the same
@@ -217,19 +265,39 @@ func InputSkew(p *Pair, c *Case, rs Resolved, cat string, sk *Skew) string {
 	if fi.PairPos2Class0 && len(item) > 1 {
 		return ClsPairPos2
 	}
-	if cat == "myanmar" {
-		for i := 1; i < len(item); i++ {
-			if item[i] == 0x1039 && item[i-1] == 0x1039 {
-				return ClsMyanmarDoubleVirama
+	for i, f := range c.Feats {
+		ranged := f.Start != 0 || f.End >= 0
+		// (i) a range that gives a shaper-enabled feature another value (0, or an alternate index) than outside the range
+		if ranged && f.Value != 1 && shaperFeatures[f.Tag] && fi.AttachTags[f.Tag] {
+			return ClsFeatureMerge
+		}
+		// (iii) a shaper-internal per-syllable form feature forced on, or ranged
+		if internalFormFeatures[f.Tag] && (f.Value != 0 || ranged) && cat != "default" {
+			return ClsFeatureMerge
+		}
+		for _, g := range c.Feats[:i] {
+			granged := g.Start != 0 || g.End >= 0
+			// (i)/(ii) same tag listed twice with different scope and different value
+			if g.Tag == f.Tag && granged != ranged && g.Value != f.Value {
+				return ClsFeatureMerge
 			}
 		}
 	}
 	if cat == "use" {
+		for i, r := range item {
+			if !unicode.In(r, unicode.M) {
+				continue
+			}
+			if i == 0 {
+				return ClsUSEMarkInitial
+			}
+			if q := item[i-1]; !unicode.In(q, unicode.L, unicode.M, unicode.N) && q != 0x25CC && q != 0x200D && q != 0x200C && q != 0x034F {
+				return ClsUSEMarkInitial
+			}
+		}
 		for _, r := range item {
-			if unicode.In(r, unicode.M) {
-				if s := language.LookupScript(r); s.Strong() && s != language.Unknown && uint32(s) != rs.Script {
-					return ClsUSEForeignMark
-				}
+			if r == 0x07FD || r == 0x0FC6 {
+				return ClsUSEData
 			}
 		}
 	}
@@ -269,6 +337,22 @@ const (
 	// font: GlyphExtents fails where the reference returns extents (seen:
 	// CFF2 glyphs when no coordinates are set), so fallback mark positioning
 	// and extents-based vertical origins are skipped.
+	// harfbuzz/ot_myanmar.go consonantFlagsMyanmar: `myaSM_ex_Ra` is or-ed in
+	// without `1 <<`, so category Ra (U+1004, U+101B, U+105A) is not a
+	// consonant and base detection / reordering go wrong.
+	KeyMyanmarRa = "C05/defect/Myanmar consonant flags wrong: Ra missing, categories 0-3 (incl. dot below) counted (1<< missing in consonantFlagsMyanmar)"
+	// font: extents of a non-empty glyph differ from the reference (decoded
+	// metrics, C10's domain) and shift fallback mark positioning.
+	KeyExtentsDiffer  = "C05/defect/GlyphExtents of a non-empty glyph differ from the reference (fallback mark positioning shifted)"
+	// harfbuzz/ot_layout_gpos.go: the base cache (lastBase / lastBaseUntil) is
+	// shared by applyGPOSMarkToLigature and applyGPOSMarkToBase; a MarkLigPos
+	// lookup that stops at the second glyph of a MultipleSubst sequence leaves
+	// that glyph cached, and the following MarkBasePos lookup (which would skip
+	// it: issue #4124 rule) does not search again, so the mark stays
+	// unattached. Witness: Estedad-VF "\u0628\u0650\u064A" alone: kasra @0,0 in
+	// the port, @252,-486 in 6.0.0 — and in the port too when other text
+	// precedes (C18 sees the same thing as an unsafe cut).
+	KeyLastBaseCache  = "C05/defect/mark left unattached after a MultipleSubst sequence (stale lastBase cache shared by MarkLigPos and MarkBasePos)"
 	KeyExtentsMissing = "C05/defect/GlyphExtents fails where the reference has extents (fallback mark positioning / vertical origin skipped)"
 )
 
@@ -311,6 +395,16 @@ func defectKey(p *Pair, c *Case, v *Verdict) string {
 			}
 		}
 	}
+	if v.Cat == "myanmar" {
+		for _, r := range c.Item() {
+			// Ra-class letters (not consonants any more) and the dot below,
+			// category 3 (a consonant by accident: the flag constant sets bits 0..3)
+			// (U+1037 and the nuktas, ccc 7, which share that category)
+			if r == 0x1004 || r == 0x101B || r == 0x105A || r == 0x1037 || ucd.LookupCombiningClass(r) == 7 {
+				return KeyMyanmarRa
+			}
+		}
+	}
 	if kind == "advance" {
 		for _, r := range c.Item() {
 			if r == 0x2007 {
@@ -329,6 +423,10 @@ func defectKey(p *Pair, c *Case, v *Verdict) string {
 			(ce.XBearing != ge.XBearing || ce.YBearing != ge.YBearing) {
 			return KeyEmptyExtents
 		}
+		if kind == "offset" && len(c.Vars) == 0 && cok && gok && (ce.Width != 0 || ce.Height != 0) &&
+			(ce.XBearing != ge.XBearing || ce.YBearing != ge.YBearing || ce.Width != ge.Width || ce.Height != ge.Height) {
+			return KeyExtentsDiffer
+		}
 	}
 	if kind == "offset" && (v.RS.Dir == hbref.DirTTB || v.RS.Dir == hbref.DirBTT) {
 		off1 := true
@@ -343,6 +441,102 @@ func defectKey(p *Pair, c *Case, v *Verdict) string {
 		}
 	}
 	return ""
+}
+
+// pairPos2Shadowed: some adjacent glyph pair (g1, g2) of the sequence meets a
+// PairPosFormat2 subtable that covers g1 while g2 has class 0 there, and a
+// later pair subtable of the same lookup covers g1 too: 6.0.0 stops at the
+// first subtable, upstream after the early exit continues to the later one.
+func pairPos2Shadowed(p *Pair, gs []G) bool {
+	for i := 0; i+1 < len(gs); i++ {
+		g1 := tables.GlyphID(gs[i].GID)
+		for _, sh := range p.Info.PairPos2Shadow {
+			for k, st := range sh {
+				d, ok := st.Data.(tables.PairPosData2)
+				if !ok {
+					continue
+				}
+				if _, cov := d.Cov().Index(g1); !cov {
+					continue
+				}
+				// next glyph (marks may be skipped by the lookup flag: try the
+				// next two glyphs)
+				for n := i + 1; n < len(gs) && n <= i+2; n++ {
+					if _, listed := d.ClassDef2.Class(tables.GlyphID(gs[n].GID)); listed {
+						continue
+					}
+					for _, later := range sh[k+1:] {
+						if _, cov := later.Data.Cov().Index(g1); cov {
+							return true
+						}
+					}
+				}
+			}
+		}
+	}
+	return false
+}
+
+// markAfterMultiple: see ClsMarkAfterMultiple. A mark glyph whose nearest
+// preceding non-mark glyph lies in a cluster that has more non-mark glyphs
+// than non-mark characters (a multiple substitution produced it).
+func markAfterMultiple(p *Pair, c *Case, dir int, out []G) bool {
+	if p.Go.GDEF.GlyphClassDef == nil {
+		return false
+	}
+	// the logical order GPOS worked in is the output order or its reverse,
+	// depending on direction and script: try both
+	if dir >= 0 {
+		rev := make([]G, len(out))
+		for i, g := range out {
+			rev[len(out)-1-i] = g
+		}
+		if markAfterMultiple(p, c, -1, rev) {
+			return true
+		}
+	}
+	gs := out
+	_, hi := c.itemRange()
+	isMark := func(g G) bool {
+		cl, _ := p.Go.GDEF.GlyphClassDef.Class(tables.GlyphID(g.GID))
+		return cl == 3
+	}
+	multiplied := func(cv int) bool {
+		next := hi
+		glyphs := 0
+		for _, g := range gs {
+			if g.Cluster > cv && g.Cluster < next {
+				next = g.Cluster
+			}
+			if g.Cluster == cv && !isMark(g) {
+				glyphs++
+			}
+		}
+		if cv < 0 || cv >= len(c.Text) || next > len(c.Text) {
+			return false
+		}
+		chars := 0
+		for _, r := range c.Text[cv:next] {
+			if !unicode.In(r, unicode.M) {
+				chars++
+			}
+		}
+		return glyphs > chars && glyphs >= 2
+	}
+	for k := 1; k < len(gs); k++ {
+		if !isMark(gs[k]) {
+			continue
+		}
+		for b := k - 1; b >= 0; b-- {
+			if !isMark(gs[b]) {
+				if multiplied(gs[b].Cluster) {
+					return true
+				}
+				break
+			}
+		}
+	}
+	return false
 }
 
 // within1 reports whether two outputs have the same glyphs and clusters and
@@ -379,6 +573,7 @@ func Judge(p *Pair, c *Case, sk *Skew) Verdict {
 		return v
 	}
 	var ok bool
+	staleCache := false
 	v.C, ok = p.ShapeC(c, v.RS)
 	v.NonTrivial = !p.Trivial(c, v.RS, v.Go) || !p.Trivial(c, v.RS, v.C)
 	v.Differ = !Equal(v.Go, v.C)
@@ -387,6 +582,25 @@ func Judge(p *Pair, c *Case, sk *Skew) Verdict {
 		big := func(k int) bool { return k >= 2048 && k >= 16*n }
 		if hit || big(len(v.Go)) || big(len(v.C)) {
 			cls = ClsGrowth
+		}
+	}
+	if cls == "" && p.Info.PairPos2Shadow != nil && pairPos2Shadowed(p, v.Go) {
+		cls = ClsPairPos2
+	}
+	if cls == "" && markAfterMultiple(p, c, v.RS.Dir, v.Go) {
+		cls = ClsMarkAfterMultiple
+		// the skew goes one way only (6.0.0 misses an attachment the newer
+		// code makes); a mark attached by 6.0.0 and left at 0,0 by the port is
+		// the stale-cache defect, not skew
+		if len(v.Go) == len(v.C) {
+			for i := range v.Go {
+				g, r := v.Go[i], v.C[i]
+				if g.GID == r.GID && g.Cluster == r.Cluster && g.XOff == 0 && g.YOff == 0 && (r.XOff != 0 || r.YOff != 0) && g.XAdv == r.XAdv {
+					cls = ""
+					staleCache = true
+					break
+				}
+			}
 		}
 	}
 	if cls == "" && !ok {
@@ -403,6 +617,9 @@ func Judge(p *Pair, c *Case, sk *Skew) Verdict {
 		v.Kind = "violated"
 		kind := DiffKind(v.Go, v.C)
 		v.Key = defectKey(p, c, &v)
+		if staleCache && (v.Key == "" || v.Key == KeyEmptyExtents || v.Key == KeyExtentsDiffer) {
+			v.Key = KeyLastBaseCache
+		}
 		if v.Key == "" {
 			v.Key = fmt.Sprintf("C05/%s#%d/%s/%s differs", c.Font, c.Index, v.Cat, kind)
 		}
